@@ -183,7 +183,7 @@ func runC06(c *core.Ctx) {
 	}
 
 	// --- LeaseSet2, with and without offline keys
-	for _, st := range []int{7, 11} {
+	for _, st := range []int{7, 11, 0} {
 		for _, off := range []bool{false, true} {
 			st, off := st, off
 			c.Job(fmt.Sprintf("NewLeaseSet2/sig%d-offline%v", st, off), n, func(i int, r *core.Rand) {
@@ -195,8 +195,8 @@ func runC06(c *core.Ctx) {
 				m.Offline, m.Flags = nil, m.Flags&6
 				signer := key
 				if off {
-					// every transient type the library can sign with (Ed25519, RedDSA, DSA-SHA1)
-					tt := []int{7, 11, 0}[i%3]
+					// every transient type the library can sign with (Ed25519, RedDSA, DSA-SHA1, Ed25519ph)
+					tt := []int{7, 11, 0, 8}[i%4]
 					o, tk := offlineFor(r, key, tt)
 					m.Offline, signer = &o, tk
 					m.Flags |= 1
@@ -240,7 +240,7 @@ func runC06(c *core.Ctx) {
 	}
 
 	// --- EncryptedLeaseSet: both constructors, every accepted key representation, offline keys
-	for _, st := range []int{7, 11} {
+	for _, st := range []int{7, 11, 8} {
 		for _, off := range []bool{false, true} {
 			st, off := st, off
 			c.Job(fmt.Sprintf("NewEncryptedLeaseSet/sig%d-offline%v", st, off), n, func(i int, r *core.Rand) {
@@ -249,8 +249,14 @@ func runC06(c *core.Ctx) {
 				m.SigType, m.BlindedKey = uint16(st), key.Pub
 				m.Offline, m.Flags = nil, m.Flags&2
 				signer := key
+				if off && st == 8 {
+					// no offline block for an Ed25519ph identity: the library's CreateOfflineSignature
+					// refuses that identity type, so there is nothing the LIBRARY signed to judge
+					// (a block made by the reference with real Ed25519ph is not the library's output)
+					return
+				}
 				if off {
-					o, tk := offlineFor(r, key, []int{7, 11}[i%2])
+					o, tk := offlineFor(r, key, []int{7, 11, 8}[i%3])
 					m.Offline, signer = &o, tk
 					m.Flags |= 1
 				}
